@@ -505,7 +505,9 @@ def dump(db, f, **options):
             frame_triggerings, "FRAME-TRIGGERING")
         frame_triggering.set("ID", "FT_" + frame.name)
         identifier = create_sub_element_fx(frame_triggering, "IDENTIFIER")
-        create_sub_element_fx(identifier, "IDENTIFIER-VALUE", str(frame.arbitration_id.id))
+        identifier_value = create_sub_element_fx(identifier, "IDENTIFIER-VALUE", str(frame.arbitration_id.id))
+        if frame.arbitration_id.extended:
+            identifier_value.set("EXTENDED-ADDRESSING", "true")
         frame_ref = create_sub_element_fx(frame_triggering, "FRAME-REF")
         frame_ref.set("ID-REF", "FRAME_" + frame.name)
         if (frame.is_fd):
